@@ -75,85 +75,97 @@ theorem Assembly.head_zero {k : Key} {ms : List Msg} {body : Bytes} (h : Assembl
     | nil => rw [hms] at hh; cases hh
     | cons x xs => rw [hms] at hh; simpa using hh
 
+/-- every block of the list carries the more flag -/
+def AllMore (ms : List Msg) : Prop := ∀ m ∈ ms, ∀ b, m.block1 = some b → b.more = true
+
+theorem allMore_nil : AllMore [] := by intro m hm; cases hm
+
+theorem AllMore.snoc {ms : List Msg} {m : Msg} {b : Blk} (h : AllMore ms) (hb : m.block1 = some b)
+    (hm : b.more = true) : AllMore (ms ++ [m]) := by
+  intro x hx b' hb'
+  simp only [List.mem_append, List.mem_singleton] at hx
+  rcases hx with hx | hx
+  · exact h x hx b' hb'
+  · subst hx; rw [hb] at hb'; cases hb'; exact hm
+
+/-- what is stored under block key `k` was built, in order, from requests of `hist`, none of
+which was a final block (a completed assembly does not stay in the spool) -/
+def KeyInv (k : Key) (hist : List Msg) (sp : TD Key Msg) : Prop :=
+  ∀ asm, alookup k sp.items = some asm →
+    blockKey asm = k ∧ ∃ ms, Assembly k ms asm.payload ∧ AllMore ms ∧ ms.Sublist hist
+
 /-- every stored assembly was built, in order, from requests of the history -/
-def SpoolInv (hist : List Msg) (sp : TD Key Msg) : Prop :=
-  ∀ k asm, alookup k sp.items = some asm →
-    blockKey asm = k ∧ ∃ ms, Assembly k ms asm.payload ∧ ms.Sublist hist
+def SpoolInv (hist : List Msg) (sp : TD Key Msg) : Prop := ∀ k, KeyInv k hist sp
+
+theorem KeyInv.weaken {k : Key} {hist : List Msg} {sp : TD Key Msg} (h : KeyInv k hist sp)
+    (more : List Msg) : KeyInv k (hist ++ more) sp := by
+  intro asm hl
+  obtain ⟨hk, ms, ha, hm, hs⟩ := h asm hl
+  exact ⟨hk, ms, ha, hm, hs.trans (List.sublist_append_left _ _)⟩
+
+theorem KeyInv.of_lookup {k : Key} {hist : List Msg} {sp sp' : TD Key Msg} (h : KeyInv k hist sp)
+    (hi : ∀ v, alookup k sp'.items = some v → alookup k sp.items = some v) : KeyInv k hist sp' :=
+  fun asm hl => h asm (hi asm hl)
+
+/-- nothing stored under the key: the invariant holds for any history, in particular the empty one -/
+theorem keyInv_absent {k : Key} {sp : TD Key Msg} (h : alookup k sp.items = none) (hist : List Msg) :
+    KeyInv k hist sp := by
+  intro asm hl; rw [h] at hl; cases hl
 
 theorem SpoolInv.weaken {hist : List Msg} {sp : TD Key Msg} (h : SpoolInv hist sp) (more : List Msg) :
-    SpoolInv (hist ++ more) sp := by
-  intro k asm hl
-  obtain ⟨hk, ms, ha, hs⟩ := h k asm hl
-  exact ⟨hk, ms, ha, hs.trans (List.sublist_append_left _ _)⟩
+    SpoolInv (hist ++ more) sp := fun k => (h k).weaken more
 
 theorem SpoolInv.of_items {hist : List Msg} {sp sp' : TD Key Msg} (h : SpoolInv hist sp)
     (hi : ∀ k v, alookup k sp'.items = some v → alookup k sp.items = some v) : SpoolInv hist sp' :=
-  fun k asm hl => h k asm (hi k asm hl)
+  fun k => (h k).of_lookup (hi k)
 
 theorem spoolInv_empty (hist : List Msg) : SpoolInv hist (TD.empty : TD Key Msg) := by
   intro k asm hl; simp [TD.empty] at hl
-
-
-theorem spoolInv_set {T now : Nat} {hist : List Msg} {sp : TD Key Msg} {req : Msg} {b : Blk}
-    (h : SpoolInv hist sp) (hb : req.block1 = some b) (h0 : b.num = 0) :
-    SpoolInv (hist ++ [req]) (sp.set T now (blockKey req) req) := by
-  intro k asm hl
-  simp only [TD.set, accessed_items] at hl
-  by_cases hk : k = blockKey req
-  · subst hk
-    rw [alookup_ainsert_self] at hl
-    simp only [Option.some.injEq] at hl
-    subst hl
-    exact ⟨rfl, [req], Assembly.first rfl hb h0, List.sublist_append_right _ _⟩
-  · rw [alookup_ainsert_ne hk] at hl
-    exact (h.weaken [req]) k asm hl
 
 theorem blockKey_append {self next : Msg} {b : Blk} {self' : Msg}
     (h : appendRequestBlock self next b = .ok self') : blockKey self' = blockKey self := by
   obtain ⟨_, _, _, e⟩ := append_ok_iff.mp h
   subst e; rfl
 
-theorem spoolInv_mutate {hist : List Msg} {sp : TD Key Msg} {req self self' : Msg} {b : Blk}
-    (h : SpoolInv hist sp) (hb : req.block1 = some b) (h0 : b.num ≠ 0)
-    (hl : alookup (blockKey req) sp.items = some self)
-    (ha : appendRequestBlock self req b = .ok self') :
-    SpoolInv (hist ++ [req]) (sp.mutate (blockKey req) self') ∧
-    blockKey self' = blockKey req ∧
-    ∃ ms, Assembly (blockKey req) ms self'.payload ∧ ms.Sublist (hist ++ [req]) ∧
-      ms.getLast? = some req := by
-  obtain ⟨hk, ms, hasm, hsub⟩ := h _ _ hl
-  obtain ⟨_, hs, hst, e⟩ := append_ok_iff.mp ha
-  have hkey : blockKey self' = blockKey req := by rw [blockKey_append ha, hk]
-  have hnew : Assembly (blockKey req) (ms ++ [req]) self'.payload := by
-    subst e
-    exact Assembly.next hasm rfl hb h0 hs hst
-  have hsub' : (ms ++ [req]).Sublist (hist ++ [req]) := List.Sublist.append hsub (List.Sublist.refl _)
-  refine ⟨?_, hkey, ms ++ [req], hnew, hsub', by simp⟩
-  intro k asm hl'
-  simp only [TD.mutate, hl] at hl'
-  by_cases hk' : k = blockKey req
-  · subst hk'
-    rw [alookup_ainsert_self] at hl'
-    simp only [Option.some.injEq] at hl'
-    subst hl'
-    exact ⟨hkey, ms ++ [req], hnew, hsub'⟩
-  · rw [alookup_ainsert_ne hk'] at hl'
-    exact (h.weaken [req]) k asm hl'
+theorem mutate_lookup_ne {sp : TD Key Msg} {k k' : Key} (h : k' ≠ k) (v : Msg) :
+    alookup k' (sp.mutate k v).items = alookup k' sp.items := by
+  unfold TD.mutate
+  cases alookup k sp.items with
+  | none => rfl
+  | some _ => exact alookup_ainsert_ne h _ _
 
-theorem SpoolInv.accessed {T now : Nat} {hist : List Msg} {sp : TD Key Msg} (h : SpoolInv hist sp)
-    (k : Key) : SpoolInv hist (sp.accessed T now k) :=
-  h.of_items (fun k' v hl => by rwa [accessed_items] at hl)
+/-- `feed_and_take` leaves the entries of all other block keys alone -/
+theorem feed_lookup_ne {T now : Nat} {sp : TD Key Msg} {req : Msg} {k : Key} (hne : k ≠ blockKey req) :
+    alookup k (feedAndTake T now sp req).1.items = alookup k sp.items := by
+  cases hb : req.block1 with
+  | none => rw [feed_none hb]
+  | some b =>
+    rcases feed_cases T now sp req b hb with ⟨h0, e⟩ | ⟨h0, _, e⟩ | ⟨h0, self, er, hl, ha, e⟩ |
+        ⟨h0, self, self', hl, ha, e⟩
+    · rw [e]
+      split
+      · simp [TD.set, accessed_items, alookup_ainsert_ne hne]
+      · simp [delIf_lookup_ne _ hne, TD.set, accessed_items, alookup_ainsert_ne hne]
+    · rw [e]
+    · rw [e]; simp [accessed_items]
+    · rw [e]
+      split
+      · simp [mutate_lookup_ne hne, accessed_items]
+      · simp [delIf_lookup_ne _ hne, accessed_items, mutate_lookup_ne hne]
 
-/-- one request through `feed_and_take`: the invariant is kept, and a request that comes out was
-either passed through unchanged (no Block1) or assembled in order from received blocks of its
-block key, the last of which is this request -/
-theorem feed_spoolInv {T now : Nat} {hist : List Msg} {sp : TD Key Msg} (req : Msg)
-    (h : SpoolInv hist sp) :
-    SpoolInv (hist ++ [req]) (feedAndTake T now sp req).1 ∧
+/-- one request through `feed_and_take`, seen from its own block key: the invariant is kept, and a
+request that comes out was either passed through unchanged (no Block1) or assembled in order from
+received blocks of its block key — intermediate blocks, then this request as the final one — and
+the assembly is gone from the spool -/
+theorem feed_keyInv_self {T now : Nat} {hist : List Msg} {sp : TD Key Msg} (req : Msg)
+    (h : KeyInv (blockKey req) hist sp) :
+    KeyInv (blockKey req) (hist ++ [req]) (feedAndTake T now sp req).1 ∧
     ∀ m, (feedAndTake T now sp req).2 = .pass m →
       (req.block1 = none ∧ m = req) ∨
-      (blockKey m = blockKey req ∧ ∃ ms, Assembly (blockKey req) ms m.payload ∧
-        ms.Sublist (hist ++ [req]) ∧ ms.getLast? = some req) := by
+      (blockKey m = blockKey req ∧
+       alookup (blockKey req) (feedAndTake T now sp req).1.items = none ∧
+       ∃ ms, Assembly (blockKey req) ms m.payload ∧ ms.Sublist (hist ++ [req]) ∧
+         ms.getLast? = some req ∧ AllMore ms.dropLast) := by
   cases hb : req.block1 with
   | none =>
     rw [feed_none hb]
@@ -161,29 +173,71 @@ theorem feed_spoolInv {T now : Nat} {hist : List Msg} {sp : TD Key Msg} (req : M
   | some b =>
     rcases feed_cases T now sp req b hb with ⟨h0, e⟩ | ⟨h0, _, e⟩ | ⟨h0, self, er, hl, ha, e⟩ |
         ⟨h0, self, self', hl, ha, e⟩
-    · have hset := spoolInv_set (T := T) (now := now) h hb h0
-      rw [e]
-      split
-      · exact ⟨hset, fun m hm => by simp at hm⟩
-      · refine ⟨hset.accessed _, fun m hm => Or.inr ?_⟩
-        simp only [Feed.pass.injEq] at hm
-        subst hm
-        exact ⟨rfl, [req], Assembly.first rfl hb h0, List.sublist_append_right _ _, rfl⟩
+    · rw [e]
+      by_cases hm : b.more = true
+      · simp only [hm, ↓reduceIte]
+        refine ⟨?_, fun m hm' => by simp at hm'⟩
+        intro asm hl
+        simp only [TD.set, accessed_items, alookup_ainsert_self, Option.some.injEq] at hl
+        subst hl
+        exact ⟨rfl, [req], Assembly.first rfl hb h0, allMore_nil.snoc hb hm,
+          List.sublist_append_right _ _⟩
+      · simp only [hm, Bool.false_eq_true, ↓reduceIte]
+        refine ⟨keyInv_absent (delIf_lookup_self _ _) _, fun m hm' => Or.inr ?_⟩
+        simp only [Feed.pass.injEq] at hm'
+        subst hm'
+        exact ⟨rfl, delIf_lookup_self _ _, [req], Assembly.first rfl hb h0,
+          List.sublist_append_right _ _, rfl, by simpa using allMore_nil⟩
     · rw [e]
       exact ⟨h.weaken _, fun m hm => by simp at hm⟩
     · rw [e]
-      exact ⟨(h.weaken _).accessed _, fun m hm => by cases er <;> simp [feedOfErr] at hm⟩
-    · have hl' : alookup (blockKey req) (sp.accessed T now (blockKey req)).items = some self := by
-        rw [accessed_items]; exact hl
-      obtain ⟨hinv, hkey, ms, hasm, hsub, hlast⟩ :=
-        spoolInv_mutate (h.accessed (T := T) (now := now) (blockKey req)) hb h0 hl' ha
+      exact ⟨(h.weaken _).of_lookup (fun v hv => by rwa [accessed_items] at hv),
+        fun m hm => by cases er <;> simp [feedOfErr] at hm⟩
+    · obtain ⟨hk, ms, hasm, hall, hsub⟩ := h self hl
+      obtain ⟨_, hs, hst, e'⟩ := append_ok_iff.mp ha
+      have hkey : blockKey self' = blockKey req := by rw [blockKey_append ha, hk]
+      have hnew : Assembly (blockKey req) (ms ++ [req]) self'.payload := by
+        subst e'
+        exact Assembly.next hasm rfl hb h0 hs hst
+      have hsub' : (ms ++ [req]).Sublist (hist ++ [req]) :=
+        List.Sublist.append hsub (List.Sublist.refl _)
       rw [e]
-      split
-      · exact ⟨hinv, fun m hm => by simp at hm⟩
-      · refine ⟨hinv.accessed _, fun m hm => Or.inr ?_⟩
-        simp only [Feed.pass.injEq] at hm
-        subst hm
-        exact ⟨hkey, ms, hasm, hsub, hlast⟩
+      by_cases hm : b.more = true
+      · simp only [hm, ↓reduceIte]
+        refine ⟨?_, fun m hm' => by simp at hm'⟩
+        intro asm hl'
+        have hl'' : alookup (blockKey req) (sp.accessed T now (blockKey req)).items = some self := by
+          rw [accessed_items]; exact hl
+        simp only [TD.mutate, hl'', alookup_ainsert_self, Option.some.injEq] at hl'
+        subst hl'
+        exact ⟨hkey, ms ++ [req], hnew, hall.snoc hb hm, hsub'⟩
+      · simp only [hm, Bool.false_eq_true, ↓reduceIte]
+        refine ⟨keyInv_absent (delIf_lookup_self _ _) _, fun m hm' => Or.inr ?_⟩
+        simp only [Feed.pass.injEq] at hm'
+        subst hm'
+        exact ⟨hkey, delIf_lookup_self _ _, ms ++ [req], hnew, hsub', by simp, by simpa using hall⟩
+
+/-- … and seen from any block key -/
+theorem feed_keyInv {T now : Nat} {hist : List Msg} {sp : TD Key Msg} (req : Msg) (k : Key)
+    (h : KeyInv k hist sp) : KeyInv k (hist ++ [req]) (feedAndTake T now sp req).1 := by
+  by_cases hk : k = blockKey req
+  · subst hk; exact (feed_keyInv_self req h).1
+  · exact (h.weaken _).of_lookup (fun v hv => by rwa [feed_lookup_ne hk] at hv)
+
+/-- one request through `feed_and_take`: the invariant is kept, and a request that comes out was
+either passed through unchanged (no Block1) or assembled in order from received blocks of its
+block key, the last of which is this request and the only one without the more flag -/
+theorem feed_spoolInv {T now : Nat} {hist : List Msg} {sp : TD Key Msg} (req : Msg)
+    (h : SpoolInv hist sp) :
+    SpoolInv (hist ++ [req]) (feedAndTake T now sp req).1 ∧
+    ∀ m, (feedAndTake T now sp req).2 = .pass m →
+      (req.block1 = none ∧ m = req) ∨
+      (blockKey m = blockKey req ∧ ∃ ms, Assembly (blockKey req) ms m.payload ∧
+        ms.Sublist (hist ++ [req]) ∧ ms.getLast? = some req ∧ AllMore ms.dropLast) := by
+  refine ⟨fun k => feed_keyInv req k (h k), fun m hm => ?_⟩
+  rcases (feed_keyInv_self (T := T) (now := now) req (h (blockKey req))).2 m hm with e | ⟨e, _, r⟩
+  · exact Or.inl e
+  · exact Or.inr ⟨e, r⟩
 
 /-- the requests of a history that went through the block-wise machinery, oldest first -/
 def received (hist : List In) : List Msg := (hist.filter (·.assemble)).map (·.req)
@@ -221,6 +275,31 @@ theorem stateAfter_spoolInv {T : Nat} (hist : List In) :
     rw [show i :: rest = [i] ++ rest from rfl, received_append, ← List.append_assoc]
     exact this
 
+theorem step_keyInv {T : Nat} {st : RState} {k : Key} {h0 : List Msg} (i : In)
+    (h : KeyInv k h0 st.spool) : KeyInv k (h0 ++ received [i]) (step T st i).1.spool := by
+  have hadv : KeyInv k h0 (spoolAt T st i) := h.of_lookup (fun v hl => advance_lookup_some hl)
+  rw [step_spool_eq]
+  by_cases ha : i.assemble = true
+  · have hr : received [i] = [i.req] := by simp [received, ha]
+    simp only [ha, ↓reduceIte, hr]
+    exact feed_keyInv i.req k hadv
+  · have ha' : i.assemble = false := by simpa using ha
+    have hr : received [i] = [] := by simp [received, ha']
+    simp only [ha', Bool.false_eq_true, ↓reduceIte, hr, List.append_nil]
+    exact hadv
+
+theorem stateAfter_keyInv {T : Nat} {k : Key} (hist : List In) :
+    ∀ {st : RState} {h0 : List Msg}, KeyInv k h0 st.spool →
+      KeyInv k (h0 ++ received hist) (stateAfter T st hist).spool := by
+  induction hist with
+  | nil => intro st h0 h; simpa [received, stateAfter] using h
+  | cons i rest ih =>
+    intro st h0 h
+    have := ih (step_keyInv (T := T) i h)
+    simp only [stateAfter]
+    rw [show i :: rest = [i] ++ rest from rfl, received_append, ← List.append_assoc]
+    exact this
+
 /-- the handler is only reached through the second stage -/
 theorem seen_passes {T : Nat} {st : RState} {i : In} {m : Msg} (ha : i.assemble = true)
     (h : (step T st i).2.seen = some m) : Passes T st i m ∧ isFresh m = true := by
@@ -250,40 +329,41 @@ theorem seen_passes {T : Nat} {st : RState} {i : In} {m : Msg} (ha : i.assemble 
 
 -- the rendering cache ---------------------------------------------------------------------------------
 
-/-- the rendering the machinery obtained from the handler in this step, with the block key of the
-request it was made for -/
-def rendered (T : Nat) (st : RState) (i : In) : Option (Key × Resp) :=
+/-- what the machinery obtained from the handler in this step — a rendering, or an exception —
+with the block key of the request it was invoked with -/
+def rendered (T : Nat) (st : RState) (i : In) : Option (Key × Outcome) :=
   if i.assemble then (step T st i).2.seen.map (fun m => (blockKey m, i.render m)) else none
 
 /-- all renderings of a history, oldest first -/
-def renderLog (T : Nat) : RState → List In → List (Key × Resp)
+def renderLog (T : Nat) : RState → List In → List (Key × Outcome)
   | _, [] => []
   | st, i :: rest => (rendered T st i).toList ++ renderLog T (step T st i).1 rest
 
-/-- the latest rendering made for block key `k` -/
-def latest (k : Key) (log : List (Key × Resp)) : Option Resp := alookup k log.reverse
+/-- the outcome of the latest handler invocation for block key `k` -/
+def latest (k : Key) (log : List (Key × Outcome)) : Option Outcome := alookup k log.reverse
 
-theorem latest_snoc_self (k : Key) (r : Resp) (log : List (Key × Resp)) :
+theorem latest_snoc_self (k : Key) (r : Outcome) (log : List (Key × Outcome)) :
     latest k (log ++ [(k, r)]) = some r := by
   simp [latest, alookup]
 
-theorem latest_snoc_ne {k k' : Key} (h : k' ≠ k) (r : Resp) (log : List (Key × Resp)) :
+theorem latest_snoc_ne {k k' : Key} (h : k' ≠ k) (r : Outcome) (log : List (Key × Outcome)) :
     latest k (log ++ [(k', r)]) = latest k log := by
   simp [latest, alookup, h]
 
-/-- whatever is kept under a block key is the latest rendering made for it -/
-def CacheInv (log : List (Key × Resp)) (c : TD Key Resp) : Prop :=
-  ∀ k a, alookup k c.items = some a → latest k log = some a
+/-- whatever is kept under a block key is what the latest handler invocation for it returned (in
+particular nothing is kept when that invocation raised) -/
+def CacheInv (log : List (Key × Outcome)) (c : TD Key Resp) : Prop :=
+  ∀ k a, alookup k c.items = some a → latest k log = some (.ok a)
 
-theorem CacheInv.of_items {log : List (Key × Resp)} {c c' : TD Key Resp} (h : CacheInv log c)
+theorem CacheInv.of_items {log : List (Key × Outcome)} {c c' : TD Key Resp} (h : CacheInv log c)
     (hi : ∀ k v, alookup k c'.items = some v → alookup k c.items = some v) : CacheInv log c' :=
   fun k a hl => h k a (hi k a hl)
 
-theorem cacheInv_empty (log : List (Key × Resp)) : CacheInv log (TD.empty : TD Key Resp) := by
+theorem cacheInv_empty (log : List (Key × Outcome)) : CacheInv log (TD.empty : TD Key Resp) := by
   intro k a hl; simp [TD.empty] at hl
 
-theorem cacheInv_set_same {T now : Nat} {log : List (Key × Resp)} {c : TD Key Resp} {k : Key}
-    {a : Resp} (h : CacheInv log c) (hl : latest k log = some a) :
+theorem cacheInv_set_same {T now : Nat} {log : List (Key × Outcome)} {c : TD Key Resp} {k : Key}
+    {a : Resp} (h : CacheInv log c) (hl : latest k log = some (.ok a)) :
     CacheInv log (c.set T now k a) := by
   intro k' a' hl'
   simp only [TD.set, accessed_items] at hl'
@@ -295,8 +375,8 @@ theorem cacheInv_set_same {T now : Nat} {log : List (Key × Resp)} {c : TD Key R
   · rw [alookup_ainsert_ne hk] at hl'
     exact h k' a' hl'
 
-theorem cacheInv_set_new {T now : Nat} {log : List (Key × Resp)} {c : TD Key Resp} (k : Key)
-    (a : Resp) (h : CacheInv log c) : CacheInv (log ++ [(k, a)]) (c.set T now k a) := by
+theorem cacheInv_set_new {T now : Nat} {log : List (Key × Outcome)} {c : TD Key Resp} (k : Key)
+    (a : Resp) (h : CacheInv log c) : CacheInv (log ++ [(k, .ok a)]) (c.set T now k a) := by
   intro k' a' hl'
   simp only [TD.set, accessed_items] at hl'
   by_cases hk : k' = k
@@ -308,20 +388,7 @@ theorem cacheInv_set_new {T now : Nat} {log : List (Key × Resp)} {c : TD Key Re
     rw [latest_snoc_ne (Ne.symm hk)]
     exact h k' a' hl'
 
-theorem delIf_lookup_self (c : TD Key Resp) (k : Key) : alookup k (delIf c k).items = none := by
-  unfold delIf TD.del
-  cases hl : alookup k c.items with
-  | none => simpa using hl
-  | some v => simpa using alookup_aerase_self _ _
-
-theorem delIf_lookup_ne (c : TD Key Resp) {k k' : Key} (h : k' ≠ k) :
-    alookup k' (delIf c k).items = alookup k' c.items := by
-  unfold delIf TD.del
-  cases hl : alookup k c.items with
-  | none => rfl
-  | some v => simpa using alookup_aerase_ne h _
-
-theorem cacheInv_del_new {log : List (Key × Resp)} {c : TD Key Resp} (k : Key) (a : Resp)
+theorem cacheInv_del_new {log : List (Key × Outcome)} {c : TD Key Resp} (k : Key) (a : Outcome)
     (h : CacheInv log c) : CacheInv (log ++ [(k, a)]) (delIf c k) := by
   intro k' a' hl'
   by_cases hk : k' = k
@@ -334,7 +401,7 @@ theorem rendered_of_seen {T : Nat} {st : RState} {i : In} (ha : i.assemble = tru
     rendered T st i = (step T st i).2.seen.map (fun m => (blockKey m, i.render m)) := by
   simp [rendered, ha]
 
-theorem step_cacheInv {T : Nat} {st : RState} {log : List (Key × Resp)} (i : In)
+theorem step_cacheInv {T : Nat} {st : RState} {log : List (Key × Outcome)} (i : In)
     (h : CacheInv log st.cache) :
     CacheInv (log ++ (rendered T st i).toList) (step T st i).1.cache := by
   have hadv : CacheInv log (cacheAt T st i) := h.of_items (fun k v hl => advance_lookup_some hl)
@@ -349,10 +416,15 @@ theorem step_cacheInv {T : Nat} {st : RState} {log : List (Key × Resp)} (i : In
       rw [step_pass ⟨ha, hfe⟩]
       simp only
       by_cases hf : isFresh m = true
-      · rw [extract_fresh hf]
-        split
-        · simpa using cacheInv_set_new (blockKey m) (i.render m) hadv
-        · simpa using cacheInv_del_new (blockKey m) (i.render m) hadv
+      · cases hr : i.render m with
+        | ok a =>
+          rw [extract_fresh hf hr]
+          split
+          · simpa [hr] using cacheInv_set_new (blockKey m) a hadv
+          · simpa [hr] using cacheInv_del_new (blockKey m) (.ok a) hadv
+        | error code =>
+          rw [extract_fresh_raised hf hr]
+          simpa [hr] using cacheInv_del_new (blockKey m) (.error code) hadv
       · have hf' : isFresh m = false := by simpa using hf
         obtain ⟨b, hb, hb0⟩ := later_of_not_fresh hf'
         cases hl : alookup (blockKey m) (cacheAt T st i).items with
@@ -368,7 +440,7 @@ theorem step_cacheInv {T : Nat} {st : RState} {log : List (Key × Resp)} (i : In
     exact hadv
 
 theorem stateAfter_cacheInv {T : Nat} (hist : List In) :
-    ∀ {st : RState} {log : List (Key × Resp)}, CacheInv log st.cache →
+    ∀ {st : RState} {log : List (Key × Outcome)}, CacheInv log st.cache →
       CacheInv (log ++ renderLog T st hist) (stateAfter T st hist).cache := by
   induction hist with
   | nil => intro st log h; simpa [renderLog, stateAfter] using h
